@@ -50,6 +50,19 @@ func PF(n int) int { return n }
 // PM is restricted.
 // @packageonly
 func (s S) PM(n int) int { return n }
+
+// MkS hands out an S; it is restricted.
+// @packageonly
+func MkS() S { return S{} }
+
+// MkTS hands out an S; it is a test helper.
+// @testonly
+func MkTS() S { return S{} }
+
+// Counter and Table are plain package-level variables.
+var Counter int
+
+var Table = []int{0}
 """
 
 # (code, line text); every line is unique within the file thanks to the number
